@@ -66,14 +66,15 @@ structure Core where
   os : OsState
   sw : List (Nat × Nat × Val)
   rw : List (Nat × Nat)
-  ws : List (List Nat)      -- rcanc, sdone, rdisc
+  ws : List (List Nat)      -- rcanc, rdisc
+  sdone : List (Nat × Val)
   sdisc : List (Nat × Val)
   rdone : List (Nat × Val)
   deriving DecidableEq, Hashable
 
 def St.core (s : St) : Core :=
   ⟨s.buf, s.hs, [s.sc, s.rc, s.unpub, s.kpub, s.inflight, s.tomb], [s.rd, s.pd], s.os, s.sw, s.rw,
-   [s.rcanc, s.sdone, s.rdisc], s.sdisc, s.rdone⟩
+   [s.rcanc, s.rdisc], s.sdone, s.sdisc, s.rdone⟩
 
 abbrev Key := Core × List (Nat × PL)
 
